@@ -89,7 +89,7 @@ SetClauses(e, o) ==
      {<<"C07", "Unlocked", e.ret = "error" => o.open.id = "-">>,
       <<"C07", "NoPartialAnswer", e.ret \in {"ok", "error", "invalid"}>>}
   ELSE IF applied THEN
-     {<<"C04", "AppliedIsValid", ValidCfg(ResultOf(I2, device, ever), dis)>>,
+     {<<"C04", "AppliedIsValid", ValidCfg(ResultOf(I2, device, ever, orph), dis)>>,
       <<"C01", "Converged", AdmConverged(o.d, I2)>>,
       <<"C01", "NoStale", AdmNoStale(device, o.d, E2, I2, orph)>>,
       <<"C01", "Untouched", AdmUntouched(device, o.d, E2)>>,
@@ -112,7 +112,7 @@ SetClauses(e, o) ==
       <<"M", "MirrorTracksSent", o.m = ApplyChange(mirror, sent)>>}
   ELSE IF e.ret \in {"invalid"} \/ (e.ret = "ok" /\ e.dry) THEN
      {<<"C03", "NoEffect", NoEffect(e, o)>>,
-      <<"C04", "Verdict", (e.ret = "ok") = ValidCfg(ResultOf(I2, device, ever), dis)>>,
+      <<"C04", "Verdict", (e.ret = "ok") = ValidCfg(ResultOf(I2, device, ever, orph), dis)>>,
       <<"C06", "NotWedgedAfterNoApply", o.open.id = "-">>}
   ELSE IF e.ret = "error" THEN
      {<<"C07", "RetrySucceeds", ~(flt.valid /\ flt.req = R /\ e.failat = 0 /\ ~e.devfail)>>,
@@ -135,7 +135,7 @@ SetNT(e) ==
                        Contrib(intended, c) # {} /\ Contrib(I2, c) # {} /\ WinCase(intended, c) # WinCase(I2, c)
       reqLeaves == UNION {{q[1] : q \in i.upd} : i \in R}
       verdictBeyondRequest == open.id = "-" /\ e.ret \in {"ok", "invalid"} /\
-            ValidCfg(ResultOf(I2, device, ever), dis) # ValidCfg(Restrict(ResultOf(I2, device, ever), reqLeaves), dis)
+            ValidCfg(ResultOf(I2, device, ever, Orphaned(intended, R)), dis) # ValidCfg(Restrict(ResultOf(I2, device, ever, Orphaned(intended, R)), reqLeaves), dis)
   IN (IF applied /\ rulerChanged THEN {"C01"} ELSE {})
      \cup (IF verdictBeyondRequest \/ (e.ret = "invalid" /\ open.id = "-") THEN {"C04"} ELSE {})
      \cup (IF applied /\ shadowedTouched THEN {"C02"} ELSE {})
@@ -158,7 +158,7 @@ TxSet(e) ==
      /\ txn' = IF applied THEN [valid |-> TRUE, id |-> e.id, req |-> R, snap |-> SnapOf(intended, R), dev |-> device, I |-> intended]
                ELSE txn
      /\ lastSet' = IF open.id = "-" /\ e.failat = 0 /\ ~e.devfail /\ e.ret \in {"ok", "invalid"}
-                   THEN [valid |-> TRUE, ret |-> e.ret, cfg |-> ResultOf(NewStore(intended, R), device, ever)]
+                   THEN [valid |-> TRUE, ret |-> e.ret, cfg |-> ResultOf(NewStore(intended, R), device, ever, Orphaned(intended, R))]
                    ELSE NoSet
      /\ UNCHANGED dis
      /\ flt' = IF e.failat > 0 \/ e.devfail
